@@ -228,6 +228,41 @@ type recAgent struct {
 	mu    sync.Mutex
 	next  script
 	calls []call
+	// kept: key objects the served agent was handed and keeps (as shimagent keeps the certificates it is
+	// given), with their encoding at the time of the call: they must not change under its feet afterwards
+	kept []keptKey
+}
+
+type keptKey struct {
+	obj  ssh.PublicKey
+	snap []byte
+	what string
+}
+
+func (a *recAgent) keep(k ssh.PublicKey, what string) {
+	if k == nil {
+		return
+	}
+	a.mu.Lock()
+	if len(a.kept) >= 24 {
+		a.kept = a.kept[1:]
+	}
+	a.kept = append(a.kept, keptKey{k, k.Marshal(), what})
+	a.mu.Unlock()
+}
+
+// changedKept reports a kept key whose encoding is no longer what it was when the agent received it.
+func (a *recAgent) changedKept() (string, bool) {
+	a.mu.Lock()
+	defer a.mu.Unlock()
+	for _, k := range a.kept {
+		var now []byte
+		if p, _ := core.Guard(func() { now = k.obj.Marshal() }); p || !bytes.Equal(now, k.snap) {
+			a.kept = nil
+			return k.what, true
+		}
+	}
+	return "", false
 }
 
 func (a *recAgent) arm(s script) {
@@ -257,6 +292,7 @@ func (a *recAgent) Sign(key ssh.PublicKey, data []byte) (*ssh.Signature, error) 
 	return s.sig, s.err
 }
 func (a *recAgent) SignWithFlags(key ssh.PublicKey, data []byte, flags agent.SignatureFlags) (*ssh.Signature, error) {
+	a.keep(key, "the key given to SignWithFlags")
 	s := a.rec(call{method: "SignWithFlags", key: key.Marshal(), data: cp(data), flags: flags})
 	return s.sig, s.err
 }
@@ -282,6 +318,7 @@ func (a *recAgent) Forward(req []byte) ([]byte, error) {
 	return s.resp, s.err
 }
 func (a *recAgent) AddHardCert(key ssh.PublicKey, comment string) error {
+	a.keep(key, "the key given to AddHardCert")
 	return a.rec(call{method: "AddHardCert", key: key.Marshal(), comment: comment}).err
 }
 func (a *recAgent) Wait(code byte) error { return a.rec(call{method: "Wait", code: code}).err }
@@ -1430,6 +1467,12 @@ func runC13(c *core.Ctx) {
 	r.Shuffle(len(seq), func(i, j int) { seq[i], seq[j] = seq[j], seq[i] })
 	for _, f := range seq {
 		f()
+		if what, changed := x.fake.changedKept(); changed {
+			x.bad("an argument the served agent received earlier on this connection changed after its call returned ("+what+
+				" no longer encodes to the bytes it had): it aliases a buffer that a later request overwrote", nil)
+		} else {
+			c.NativeCheck(1)
+		}
 	}
 	x.endSession()
 	if pairDir != "" {
